@@ -602,7 +602,9 @@ class PseudoNetCDFFile(PseudoNetCDFSelfReg, object):
         ddimevals = np.diff(dimevals)
 
         if (ddimevals < 0).all():
-            dimevals[::-1]
+            # np.interp needs ascending coordinates
+            dimevals = dimevals[::-1]
+            dimvals = dimvals[::-1]
             idx = idx[::-1]
         elif (ddimevals > 0).all():
             pass
